@@ -752,3 +752,63 @@ func init() {
 		r.Floor("loops examined", total, 10)
 	})
 }
+
+func init() {
+	reg("C07-R8", "floating-point keys that compare equal get the same index key: the order-preserving byte encoding of a Float (encodeToDicOrderComparableBytes) does not work from the raw bit pattern alone — 0.0 and -0.0 are equal for Value.CompareEquals and for a sequential scan but differ in the sign bit — so the value passes through at least one floating-point operation (a comparison the sign branch depends on, or arithmetic that normalises the zero) or the negative-zero pattern is compared explicitly", func(w *World, r *Report) {
+		enc := w.Fn("samehada/samehada_util", "", "encodeToDicOrderComparableBytes")
+		isFloat := func(t types.Type) bool {
+			b, ok := t.Underlying().(*types.Basic)
+			return ok && b.Info()&types.IsFloat != 0
+		}
+		floatOp := func(v ssa.Value) bool {
+			bo, ok := v.(*ssa.BinOp)
+			if !ok || !isFloat(bo.X.Type()) {
+				return false
+			}
+			switch bo.Op {
+			case token.EQL, token.NEQ, token.LSS, token.LEQ, token.GTR, token.GEQ:
+				// a comparison tells the two zeros apart from the rest only when it is against zero (`f == f` does not)
+				for _, o := range []ssa.Value{bo.X, bo.Y} {
+					if c, ok := o.(*ssa.Const); ok && c.Value != nil && constant.Sign(c.Value) == 0 {
+						return true
+					}
+				}
+				return false
+			}
+			return true
+		}
+		negZero := func(v ssa.Value) bool {
+			bo, ok := v.(*ssa.BinOp)
+			if !ok || (bo.Op != token.EQL && bo.Op != token.NEQ) {
+				return false
+			}
+			for _, o := range []ssa.Value{bo.X, bo.Y} {
+				if c, ok := o.(*ssa.Const); ok && c.Value != nil && c.Value.Kind() == constant.Int {
+					if u, ok := constant.Uint64Val(c.Value); ok && (u == 0x80000000 || u == 0x8000000000000000) {
+						return true
+					}
+				}
+			}
+			return false
+		}
+		n := 0
+		EachCall(enc, func(c ssa.CallInstruction) {
+			f := c.Common().StaticCallee()
+			if f == nil || f.Pkg == nil || f.Pkg.Pkg.Path() != "math" || (f.Name() != "Float32bits" && f.Name() != "Float64bits") {
+				return
+			}
+			n++
+			ok := DependsOn(c.Common().Args[0], floatOp)
+			// a branch of the encoder that is decided by a float comparison / the -0 pattern
+			for _, b := range enc.Blocks {
+				if iff, isIf := b.Instrs[len(b.Instrs)-1].(*ssa.If); isIf && (DependsOn(iff.Cond, floatOp) || DependsOn(iff.Cond, negZero)) {
+					ok = true
+				}
+			}
+			r.Check(ok, "encodeToDicOrderComparableBytes:float-key-not-from-bits-alone"+ordinalIn(enc, c.(ssa.Instruction), CalleeObj(c)), "equal floats (0.0 and -0.0) get the same key", "the key of a Float is computed from math."+f.Name()+" at "+w.InstrPos(c.(ssa.Instruction))+" with integer operations only: 0.0 and -0.0 (equal for the executors) are filed under different index keys, so an index lookup of zero misses rows a scan returns")
+		})
+		r.Floor("float-to-bits conversions in the key encoder", n, 1)
+	})
+	prop("C07", "C07-R8")
+	prop("C17", "C07-R8")
+}
